@@ -195,7 +195,8 @@ def main(argv=None):
             log(f"ENGINE-ERROR kernel {r['pkg']}/{r['kernel']}: {json.dumps(r['engine_errors'][:1], default=str)[:1200]}")
     for bv_ in build_violations:
         f = next((f for f in known.get('findings', []) if (f.get('property') == pid or pid in f.get('properties', [])) and f.get('match', {}).get('build_variant')
-                  and re.fullmatch(f['match']['build_variant'], bv_['variant'])), None)
+                  and re.fullmatch(f['match']['build_variant'], bv_['variant'])
+                  and ('build_log' not in f['match'] or re.search(f['match']['build_log'], bv_['log']))), None)
         if f:
             key = f.get('id', f.get('what'))
             if key not in known_printed:
